@@ -269,7 +269,7 @@ class History(object):
             else:
                 res = 'ok xfer %s %s' % (ptxt, '|'.join(evs) if evs else '-')
             last = k == len(subs) - 1
-            self.expect.append((res, self.pair.digests() if last else None))
+            self.expect.append((res, self.pair.digests() if (last and not hang and not crashed) else None))
             if hang or crashed:
                 self.dead = True
             if self.ref:
@@ -381,7 +381,7 @@ class History(object):
                     self.ck.violation('datagram-wrong-socket', 'UI for address %d was delivered to socket %s%d (bound at %r), reference: %s'
                                       % (d, other, j, RY.addr[j] if RY.valid(j) else None, want), self.hist())
                 elif RY.typ[j] == 'ldl':
-                    RY.inq[j].append((hexs(real.data), s))
+                    RY.inq[j].append((ptxt.split(',')[3], s))     # payload as it was on the link
                 else:
                     RY.inq[j].append(ptxt)
         elif name == 'CONNECT':
@@ -390,11 +390,14 @@ class History(object):
                 a = RY.names.get(bytes(real.sn)) if real.sn else None
                 if a is not None:
                     for j in RY.bound.get(a, ()):
-                        if RY.typ[j] == 'dlc' and RY.backlog[j] is not None:
+                        if RY.typ[j] == 'dlc' and RY.backlog[j] is not None and RY.sname[j] == bytes(real.sn):
                             want = j
-                    for j in RY.bound.get(a, ()):
-                        if RY.typ[j] == 'raw':
-                            want = j
+                tco = self.pair.side[other].socks[want] if want is not None else None
+                if (want is not None and not enq and RY.connq[want] < RY.backlog[want] and
+                        str(tco.state) == 'LISTEN' and len(tco.recv_queue) < tco.recv_buf):
+                    self.ck.violation('connect-by-name-not-delivered',
+                                      'CONNECT for service %r: socket %s%d is bound under that name, listening with room in its '
+                                      'backlog, but no socket received the request' % (bytes(real.sn), other, want), self.hist())
                 for j, _p in enq:
                     if j != want:
                         self.ck.violation('connect-by-name-wrong-socket',
@@ -403,7 +406,7 @@ class History(object):
                                              RY.addr[j] if RY.valid(j) else None, a), self.hist())
             else:
                 for j in RY.bound.get(real.dsap, ()):
-                    if (RY.typ[j] == 'dlc' and RY.backlog[j] is not None) or RY.typ[j] == 'raw':
+                    if RY.typ[j] == 'dlc' and RY.backlog[j] is not None:
                         want = j
                 for j, _p in enq:
                     if j != want:
@@ -717,26 +720,22 @@ def main():
     if ck.replay:
         case = json.load(open(ck.replay))['case']
         H = run_history(ck, [unjson(o) for o in case['history']], case.get('agf', False))
-        out = mr.run(H.lines)
-        compare(ck, [H], out)
+        batch = Batch(ck, mr)
+        batch.add(H, 'replay')
+        batch.flush()
         ck.finish(level='proof', rule='replay of one stored history', explanation='replay')
 
-    hs = []
+    batch = Batch(ck, mr)
     for ops in corpus():
         for agf in (False, True):
-            H = run_history(ck, ops, agf)
-            H.kind = 'corpus'
-            hs.append(H)
-    nrand = 600 if quick else 6000
+            batch.add(run_history(ck, ops, agf), 'corpus')
+    nrand = 2000 if quick else 30000
     for k in range(nrand):
         agf = bool(k % 2)
-        H = run_history(ck, [], agf, Gen(rng, agf, rng.choice([10, 25, 40, 60])))
-        H.kind = 'random'
-        hs.append(H)
+        batch.add(run_history(ck, [], agf, Gen(rng, agf, rng.choice([10, 25, 40, 60]))), 'random')
     # long histories aimed at exhaustion: many sockets, mostly bind/close
-    for k in range(20 if quick else 200):
+    for k in range(40 if quick else 600):
         H = History(ck, False)
-        H.kind = 'exhaustion'
         try:
             sd = 'A'
             nsock = 0
@@ -751,16 +750,13 @@ def main():
                     H.apply(('close', sd, rng.randrange(nsock)))
         finally:
             H.finish()
-        hs.append(H)
-    depth = 2 if quick else 3
+        batch.add(H, 'exhaustion')
+    depth = 3 if quick else 4
     for ops in exhaustive_histories(depth):
-        H = run_history(ck, ops, False)
-        H.kind = 'exhaustive-%d' % depth
-        hs.append(H)
-
-    lines = [ln for H in hs for ln in H.lines]
-    out = mr.run(lines)
-    compare(ck, hs, out)
+        batch.add(run_history(ck, ops, False), 'exhaustive-%d' % depth)
+    batch.flush()
+    ck.cov['traces_validated_against_impl'] = batch.nhist - batch.nmis
+    ck.cov['steps_compared'] = batch.nsteps
     ck.finish(level='proof',
               rule='histories on two real LogicalLinkController objects: corpus (name reuse after close, well-known name over an occupied '
                    'address, 17 named / 33 anonymous binds, connect-by-name handshake and close order, datagram order, resolve, FRMR), '
@@ -772,41 +768,61 @@ def main():
                           'PDU, delivery event and both address tables after every step with the real controllers')
 
 
-def compare(ck, hs, out):
-    pos = 0
-    nmis = 0
-    nsteps = 0
-    for H in hs:
-        prefix = []
-        roll = hashlib.sha1(getattr(H, 'kind', '').encode())
-        for line, (res, dig) in zip(H.lines, H.expect):
-            got = out[pos] if pos < len(out) else '?missing'
-            pos += 1
-            if line == 'reset':
-                continue
-            nsteps += 1
-            prefix.append(line)
-            word = line.split()[0]
-            ck.count(word)
-            roll.update(line.encode() + b'/')
-            ck.case(roll.hexdigest(),
-                    word in ('bind', 'close', 'connecta', 'connectn', 'listen', 'accept', 'resolve', 'xfer'),
-                    {'step': line, 'result': res[:80]} if ck.cov['evaluations'] % 997 == 0 else None)
-            g = got.split('#')
-            bad = g[0] != res or (dig is not None and (len(g) != 3 or (g[1], g[2]) != dig))
-            if bad:
-                nmis += 1
-                if nmis <= 5:
-                    ck.correspondence_mismatch('llc-step', {'history': H.hist(), 'at': len(prefix), 'step': line,
-                                                            'impl': [res, dig], 'model': g})
-                break
-        else:
-            continue
-        # skip the rest of this history's model output
-        rest = len(H.lines) - len(prefix) - 1
-        pos += rest
-    ck.cov['traces_validated_against_impl'] = len(hs) - nmis
-    ck.cov['steps_compared'] = nsteps
+class Batch(object):
+    """collects finished histories, runs the model on them in chunks and compares"""
+
+    def __init__(self, ck, mr):
+        self.ck, self.mr = ck, mr
+        self.hs = []
+        self.nlines = 0
+        self.nhist = self.nmis = self.nsteps = 0
+
+    def add(self, H, kind):
+        H.kind = kind
+        H.pair = None           # the controllers are not needed any more
+        H.ref = None
+        self.hs.append(H)
+        self.nlines += len(H.lines)
+        if self.nlines > 150000:
+            self.flush()
+
+    def flush(self):
+        if not self.hs:
+            return
+        out = self.mr.run([ln for H in self.hs for ln in H.lines])
+        self.compare(out)
+        self.hs = []
+        self.nlines = 0
+
+    def compare(self, out):
+        ck = self.ck
+        pos = 0
+        for H in self.hs:
+            self.nhist += 1
+            n = 0
+            roll = hashlib.sha1(H.kind.encode())
+            start = pos
+            for line, (res, dig) in zip(H.lines, H.expect):
+                got = out[pos] if pos < len(out) else '?missing'
+                pos += 1
+                if line == 'reset':
+                    continue
+                self.nsteps += 1
+                n += 1
+                word = line.split()[0]
+                ck.count(word)
+                roll.update(line.encode() + b'/')
+                ck.case(roll.hexdigest(),
+                        word in ('bind', 'close', 'connecta', 'connectn', 'listen', 'accept', 'resolve', 'xfer'),
+                        {'step': line, 'result': res[:80]} if ck.cov['evaluations'] % 9973 == 0 else None)
+                g = got.split('#')
+                if g[0] != res or (dig is not None and (len(g) != 3 or (g[1], g[2]) != dig)):
+                    self.nmis += 1
+                    if self.nmis <= 5:
+                        ck.correspondence_mismatch('llc-step', {'history': H.hist(), 'at': n, 'step': line,
+                                                                'impl': [res, dig], 'model': g})
+                    break
+            pos = start + len(H.lines)
 
 
 PROOF_TARGETS = ['Proofs/AddrMain.vo']
